@@ -3,7 +3,8 @@ from pyvc.spec import contract, external, model_class
 import pyvc.spec as _S
 
 PR = 'vivarium.core.process:'
-_S.CLASSES['Process'].fields.update({'_pending_command': 'Opt[Tup[Atom,Val,Val]]', '_command_result': 'Val'})
+_S.CLASSES['Process'].fields.update({'_pending_command': 'Opt[Tup[Atom,Val,Val]]', '_command_result': 'Val',
+                                     'parameters': 'Map[Atom,Val]', '_parameters': 'Map[Atom,Val]'})
 # g_owed: answers the child will still write into the pipe and the parent has not read yet; g_profile: the child was
 # started with profiling, so it answers the `end` command with its statistics before it exits
 model_class('Conn', fields={}, ghost={'g_sent': 'Int', 'g_recv': 'Int', 'g_end_sent': 'Int', 'g_owed': 'Int', 'g_profile': 'Bool'})
@@ -91,3 +92,61 @@ contract(PR + 'ParallelProcess.end', props=['C13'],
              # have been read before waiting for it (otherwise parent and child wait for each other)
              'assert self.parent.g_owed == 0']}},
          note='no `raises` clause: end() must not raise, in particular not the "command still pending" RuntimeError')
+
+
+# ---- C13 / C02: a parallel wrapper answers every question by ASKING THE CHILD (transparency) ---------------------------
+# g_last: the command name of the last message written into the pipe
+_S.CLASSES['Conn'].ghost['g_last'] = 'Atom'
+_S.CONTRACTS['conn:Conn.send'].modifies.append('self.g_last')
+_S.CONTRACTS['conn:Conn.send'].ensures.append('self.g_last == msg[0]')
+_S.CONTRACTS[PR + 'ParallelProcess.send_command'].modifies.append('Conn.g_last')
+_S.CONTRACTS[PR + 'ParallelProcess.send_command'].ensures.append('self.parent.g_last == command')
+_S.CONTRACTS[PR + 'ParallelProcess.end'].modifies.append('Conn.g_last')
+
+LIVE = ['not self._ended', 'is_none(self._pending_command)', 'self.parent.g_owed == 0']
+
+
+def ASKED(cmd):
+    """the child was asked exactly once, with this command, and its answer was read"""
+    return ['self.parent.g_sent == old(self.parent.g_sent) + 1', 'self.parent.g_recv == old(self.parent.g_recv) + 1',
+            'self.parent.g_last == %s' % cmd, 'self.parent.g_owed == 0', 'is_none(self._pending_command)']
+
+
+FWD_FRAME = ['self._pending_command', 'self._command_result', 'Conn.g_sent', 'Conn.g_end_sent', 'Conn.g_recv', 'Conn.g_owed',
+             'Conn.g_last']
+
+contract(PR + 'Process.run_command#parallel', props=['C13', 'C02'], self_class='ParallelProcess',
+         types={'command': 'Atom', 'args': 'Val', 'kwargs': 'Val', 'ret': 'Val'},
+         requires=LIVE + ["command != 'end'"],
+         modifies=FWD_FRAME,
+         ensures=ASKED('command'))
+
+for _name, _params in (('calculate_timestep', {'states': 'Val'}), ('update_condition', {'timestep': 'Real', 'states': 'Val'}),
+                       ('next_update', {'timestep': 'Real', 'states': 'Val'}), ('is_step', {}), ('ports_schema', {}),
+                       ('initial_state', {'config': 'Val'}), ('get_private_state', {})):
+    contract(PR + 'ParallelProcess.' + _name, props=['C13'] + (['C02'] if _name in ('calculate_timestep', 'next_update') else []),
+             types=dict(_params, ret='Val'),
+             requires=LIVE, modifies=FWD_FRAME,
+             calls={'run_command': PR + 'Process.run_command#parallel'},
+             # whatever the wrapped process answers to this question is what the engine gets: the question is forwarded
+             ensures=ASKED("'%s'" % _name))
+
+
+# ---- the DEFAULT implementations (variants: the engine's callers keep the behavioural contract of arbitrary user
+#      overrides declared in c_engine; these verify what a process that does not override them does) -----------------------------------------------------------
+_S.CLASSES['Process'].fields.update({'condition_path': 'Opt[Path]'})
+
+contract(PR + 'Process.calculate_timestep#default', props=['C02', 'C03'],
+         types={'states': 'Val', 'ret': 'Val'},
+         requires=["has(self.parameters, 'timestep')"],
+         # a process that does not override it requests its `timestep` parameter, whatever the state
+         ensures=["ret == lookup(self.parameters, 'timestep')"])
+
+contract(PR + 'Process.update_condition#default', props=['C03', 'C13'],
+         types={'timestep': 'Real', 'states': 'Tree', 'ret': 'Tree'},
+         requires=['implies(not is_none(self.condition_path), dicts_along(states, some(self.condition_path)))'],
+         # without a `_condition` path a process always runs; with one, the variable at that path decides
+         ensures=['implies(is_none(self.condition_path) or len(some(self.condition_path)) == 0, ret == True)',
+                  'implies(not is_none(self.condition_path) and len(some(self.condition_path)) > 0, '
+                  'ret == tget(states, some(self.condition_path), leaf_none()))'],
+         note='condition_path is a property reading parameters["_condition"]; modelled as a field')
